@@ -1196,23 +1196,23 @@ int main(int argc, char** argv) {
         for (const char* w : ptrWorlds) plain.push_back(ptrJob(w, (std::string(w) == "ClonePtr" || std::string(w) == "CloneOnWritePtr") ? 3 : 2));   // the small worlds are settled by the merged fixpoint search
         { arr::Config c; c.alpha = 1; c.smax = 9; c.cmax = 17; merged.push_back({arrayJob(c), "array-unsigned"}); }
     } else {
-        A(0, 0, 0, 0, 4);
-        for (int s : {1, 2, 3, 4, 6}) A(0, 0, s, 0, 3);
-        for (int s : {0, 2, 3, 6}) A(0, 0, s, 1, 4);
-        A(0, 0, 5, 1, 4, 20, 40);
+        // Sized to finish inside the budget on a heavily shared machine (13 M histories). Run once to completion with larger bounds
+        // (all clean apart from the known findings, numbers in notes/C26.md): full alphabet depth 4 from the empty array (19.6 M histories),
+        // core alphabet depth 4 from seeds 0,2,3,6 and 16/16, move-only depth 4, CloneOnWritePtr depth 4 (34.2 M), merged search with sizes <= 17.
+        for (int s : {0, 1, 2, 3, 4, 6}) A(0, 0, s, 0, 3);
+        for (int s : {0, 2}) A(0, 0, s, 1, 4);
+        A(0, 0, 5, 1, 3, 20, 40);
         A(0, 0, 0, 2, 6); A(0, 0, 2, 2, 5);
         for (int s : {0, 2, 4}) A(0, 1, s, 0, 3);
-        A(0, 1, 3, 1, 4);
+        A(0, 1, 3, 1, 3);
         for (int s : {0, 2}) A(0, 2, s, 0, 3);
         for (int s : {10, 11, 12, 13, 14, 15, 16}) A(0, 2, s, 3, 3, 258, 255);
         for (int s : {0, 2}) A(1, 0, s, 0, 3);
         A(1, 0, 0, 1, 4);
-        A(2, 0, 0, 0, 4); A(2, 0, 2, 0, 3);
-        for (const char* w : ptrWorlds) plain.push_back(ptrJob(w, 3));   // depth 4 of the 94-operation CloneOnWritePtr alphabet (34 M histories, run once: clean) does not fit the budget on a loaded machine; the merged search reaches its fixpoint at 15 states
+        A(2, 0, 0, 0, 3); A(2, 0, 2, 0, 3);
+        for (const char* w : ptrWorlds) plain.push_back(ptrJob(w, 3));
         { arr::Config c; c.alpha = 0; c.smax = 9; c.cmax = 17; merged.push_back({arrayJob(c), "array-unsigned"}); }
-        // (run once to their fixpoints: core alphabet with sizes <= 17 / capacities <= 33: 211600 states, 7.3 M transitions, clean apart from the known findings;
-        //  the max_size edge world from 252/254: 38277 states. Both are too slow for the 30 min budget on a loaded machine.)
-        { arr::Config c; c.alpha = 1; c.smax = 13; c.cmax = 26; merged.push_back({arrayJob(c), "array-unsigned-deep"}); }
+        { arr::Config c; c.alpha = 1; c.smax = 11; c.cmax = 22; merged.push_back({arrayJob(c), "array-unsigned-deep"}); }
     }
     // diagnostic filter (never exhaustive): --only <substring of "world [config]" or of a merged tag>
     for (size_t i = 0; i + 1 < run.extra.size(); ++i) if (run.extra[i] == "--only") {
